@@ -1,9 +1,159 @@
-"""Boolean / integer helpers over z3 with constant folding.
+"""Symbolic booleans for symx.
 
-A "B" is either a Python bool or a z3 BoolRef; an "I" is a Python int or a z3 ArithRef.
-Keeping Python constants wherever possible lets the interpreter prune dead instances
-syntactically and keeps the formulas small."""
+A "B" is either a Python bool or a `Bd` (a node of a reduced ordered BDD over the input-presence /
+deadline variables).  Keeping every path condition and state bit in canonical form means that an
+unsatisfiable guard *is* the constant False: dead instances, impossible second copies of a row, and
+fixpoint iterations no database can reach disappear during symbolic execution without a solver call.
+The verdict of every query is still asked of z3: `z(b)` exports the formula (an ITE DAG over the
+variables) and the checker reports z3's sat/unsat answer and model.
+
+An "I" is a Python int or a `Lin` (constant + weighted sum of B's); comparisons of Lin values are
+compiled to BDDs (pseudo-boolean threshold functions)."""
+import sys
 import z3
+
+sys.setrecursionlimit(100000)
+
+
+NODE_LIMIT = 4_000_000
+
+
+class BddBlowup(Exception):
+    """the canonical forms grew beyond the node budget (retry with fewer symbolic inputs)"""
+
+
+class _Mgr:
+    def __init__(self):
+        self.reset()
+
+    def reset(self):
+        # node 0 = False, node 1 = True
+        self.var = [1 << 30, 1 << 30]
+        self.lo = [0, 1]
+        self.hi = [0, 1]
+        self.unique = {}
+        self.ite_cache = {}
+        self.names = []       # variable index -> name
+        self.by_name = {}
+        self.z3vars = {}
+        self.z3cache = {}
+        self.objs = {}        # node id -> Bd
+
+    def mk(self, v, lo, hi):
+        if lo == hi:
+            return lo
+        key = (v, lo, hi)
+        n = self.unique.get(key)
+        if n is None:
+            n = len(self.var)
+            if n > NODE_LIMIT:
+                raise BddBlowup()
+            self.var.append(v)
+            self.lo.append(lo)
+            self.hi.append(hi)
+            self.unique[key] = n
+        return n
+
+    def new_var(self, name):
+        if name in self.by_name:
+            return self.mk(self.by_name[name], 0, 1)
+        i = len(self.names)
+        self.names.append(name)
+        self.by_name[name] = i
+        return self.mk(i, 0, 1)
+
+    def ite(self, f, g, h):
+        if f == 1:
+            return g
+        if f == 0:
+            return h
+        if g == h:
+            return g
+        if g == 1 and h == 0:
+            return f
+        key = (f, g, h)
+        r = self.ite_cache.get(key)
+        if r is not None:
+            return r
+        var = self.var
+        v = min(var[f], var[g], var[h])
+        f0, f1 = (self.lo[f], self.hi[f]) if var[f] == v else (f, f)
+        g0, g1 = (self.lo[g], self.hi[g]) if var[g] == v else (g, g)
+        h0, h1 = (self.lo[h], self.hi[h]) if var[h] == v else (h, h)
+        r = self.mk(v, self.ite(f0, g0, h0), self.ite(f1, g1, h1))
+        self.ite_cache[key] = r
+        return r
+
+    def and_(self, a, b):
+        if a == b:
+            return a
+        if a > b:
+            a, b = b, a
+        return self.ite(a, b, 0)
+
+    def or_(self, a, b):
+        if a == b:
+            return a
+        if a > b:
+            a, b = b, a
+        return self.ite(a, 1, b)
+
+    def not_(self, a):
+        return self.ite(a, 0, 1)
+
+
+M_ = _Mgr()
+
+
+class Bd:
+    """a non-constant BDD node"""
+    __slots__ = ("i",)
+
+    def __init__(self, i):
+        self.i = i
+
+    def __repr__(self):
+        return "Bd#%d" % self.i
+
+    def __hash__(self):
+        return self.i
+
+    def __eq__(self, o):
+        return isinstance(o, Bd) and o.i == self.i
+
+    def __ne__(self, o):
+        return not self.__eq__(o)
+
+    def __bool__(self):
+        raise TypeError("symbolic boolean used as a Python bool")
+
+
+def _wrap(n):
+    if n == 0:
+        return False
+    if n == 1:
+        return True
+    o = M_.objs.get(n)
+    if o is None:
+        o = M_.objs[n] = Bd(n)
+    return o
+
+
+def _id(b):
+    if b is True:
+        return 1
+    if b is False:
+        return 0
+    return b.i
+
+
+def reset_manager():
+    M_.reset()
+
+
+def BVar(name):
+    return _wrap(M_.new_var(name))
+
 
 TRUE, FALSE = True, False
 
@@ -12,49 +162,40 @@ def is_const(b):
     return isinstance(b, bool)
 
 
-def z(b):
-    """to z3"""
-    if isinstance(b, bool):
-        return z3.BoolVal(b)
-    return b
+def is_b(v):
+    return isinstance(v, (bool, Bd))
 
 
 def Not_(a):
     if isinstance(a, bool):
         return not a
-    if z3.is_not(a):
-        return a.arg(0)
-    return z3.Not(a)
+    return _wrap(M_.not_(a.i))
 
 
 def And_(*xs):
-    out = []
+    acc = 1
     for x in xs:
-        if isinstance(x, bool):
-            if not x:
-                return False
+        if x is True:
             continue
-        out.append(x)
-    if not out:
-        return True
-    if len(out) == 1:
-        return out[0]
-    return z3.And(*out)
+        if x is False:
+            return False
+        acc = M_.and_(acc, x.i) if acc != 1 else x.i
+        if acc == 0:
+            return False
+    return _wrap(acc)
 
 
 def Or_(*xs):
-    out = []
+    acc = 0
     for x in xs:
-        if isinstance(x, bool):
-            if x:
-                return True
+        if x is False:
             continue
-        out.append(x)
-    if not out:
-        return False
-    if len(out) == 1:
-        return out[0]
-    return z3.Or(*out)
+        if x is True:
+            return True
+        acc = M_.or_(acc, x.i) if acc != 0 else x.i
+        if acc == 1:
+            return True
+    return _wrap(acc)
 
 
 def OrL(xs):
@@ -70,36 +211,20 @@ def Implies_(a, b):
 
 
 def If_(c, a, b):
-    """ite over B values"""
-    if isinstance(c, bool):
-        return a if c else b
-    if isinstance(a, bool) and isinstance(b, bool):
-        if a == b:
-            return a
-        return c if a else Not_(c)
-    if isinstance(a, bool):
-        return Or_(c, b) if a else And_(Not_(c), b)
-    if isinstance(b, bool):
-        return Or_(Not_(c), a) if b else And_(c, a)
-    if a is b or a.eq(b):
-        return a
-    return z3.If(c, a, b)
+    return _wrap(M_.ite(_id(c), _id(a), _id(b)))
 
 
-def IfI(c, a, b):
-    """ite over I values"""
-    if isinstance(c, bool):
-        return a if c else b
-    if isinstance(a, int) and isinstance(b, int) and a == b:
-        return a
-    ai = z3.IntVal(a) if isinstance(a, int) else a
-    bi = z3.IntVal(b) if isinstance(b, int) else b
-    return z3.If(c, ai, bi)
+def Eq_(a, b):
+    return If_(a, b, Not_(b))
 
 
+def Xor_(a, b):
+    return If_(a, Not_(b), b)
+
+
+# ---------------------------------------------------------------- integers
 class Lin:
-    """a symbolic natural number: const + sum of weight*[bool]; kept out of the arithmetic theory so that
-    every query stays propositional + pseudo-boolean (decided by z3's SAT-based QF_FD solver)"""
+    """a symbolic natural number: const + sum of weight*[B]"""
     __slots__ = ("terms", "const")
 
     def __init__(self, terms, const=0):
@@ -125,23 +250,49 @@ class Lin:
         return Lin([(b, -w) for b, w in self.terms], o - self.const)
 
     def cmp(self, op, o):
-        d = self - o if not isinstance(o, Lin) or True else None
+        d = self - o
         terms, k = d.terms, -d.const  # sum(terms) op k
-        if not terms:
-            return {"<": 0 < k, "<=": 0 <= k, ">": 0 > k, ">=": 0 >= k, "==": 0 == k, "!=": 0 != k}[op]
         if op == "<=":
-            return z3.PbLe(terms, k)
+            return Not_(pb_ge(terms, k + 1))
         if op == "<":
-            return z3.PbLe(terms, k - 1)
+            return Not_(pb_ge(terms, k))
         if op == ">=":
-            return z3.PbGe(terms, k)
+            return pb_ge(terms, k)
         if op == ">":
-            return z3.PbGe(terms, k + 1)
+            return pb_ge(terms, k + 1)
         if op == "==":
-            return z3.And(z3.PbLe(terms, k), z3.PbGe(terms, k))
+            return And_(pb_ge(terms, k), Not_(pb_ge(terms, k + 1)))
         if op == "!=":
-            return z3.Not(z3.And(z3.PbLe(terms, k), z3.PbGe(terms, k)))
+            return Not_(And_(pb_ge(terms, k), Not_(pb_ge(terms, k + 1))))
         raise ValueError(op)
+
+
+def pb_ge(terms, k):
+    """BDD of  sum(w_i * [b_i]) >= k"""
+    terms = [(b, w) for b, w in terms if w != 0 and b is not False]
+    base = sum(w for b, w in terms if b is True)
+    terms = [(b, w) for b, w in terms if b is not True]
+    k = k - base
+    n = len(terms)
+    maxs, mins = [0] * (n + 1), [0] * (n + 1)
+    for i in range(n - 1, -1, -1):
+        w = terms[i][1]
+        maxs[i] = maxs[i + 1] + max(w, 0)
+        mins[i] = mins[i + 1] + min(w, 0)
+    memo = {}
+
+    def go(i, need):
+        if need <= mins[i]:
+            return True
+        if need > maxs[i]:
+            return False
+        key = (i, need)
+        r = memo.get(key)
+        if r is None:
+            b, w = terms[i]
+            r = memo[key] = If_(b, go(i + 1, need - w), go(i + 1, need))
+        return r
+    return go(0, k)
 
 
 def b2i(b):
@@ -157,50 +308,105 @@ def SumI(xs):
     return acc
 
 
-def new_solver():
-    """SAT-based finite-domain solver: all symx queries are propositional + pseudo-boolean"""
-    return z3.SolverFor("QF_FD")
-
-
 def is_sym(v):
-    return isinstance(v, (z3.ExprRef, Lin))
+    return isinstance(v, (Bd, Lin))
 
 
-def Eq_(a, b):
-    """equality of two B values"""
-    if isinstance(a, bool) and isinstance(b, bool):
-        return a == b
-    if isinstance(a, bool):
-        return b if a else Not_(b)
+# ---------------------------------------------------------------- export to z3 / evaluation
+def z3var(name):
+    v = M_.z3vars.get(name)
+    if v is None:
+        v = M_.z3vars[name] = z3.Bool(name)
+    return v
+
+
+def z(b):
+    """z3 formula of a B (ITE DAG over the variables; shared subgraphs are shared terms)"""
     if isinstance(b, bool):
-        return a if b else Not_(a)
-    return a == b
+        return z3.BoolVal(b)
+    cache = M_.z3cache
+    var, lo, hi, names = M_.var, M_.lo, M_.hi, M_.names
+    stack = [b.i]
+    while stack:
+        n = stack[-1]
+        if n in cache or n < 2:
+            stack.pop()
+            continue
+        l, h = lo[n], hi[n]
+        todo = [x for x in (l, h) if x >= 2 and x not in cache]
+        if todo:
+            stack.extend(todo)
+            continue
+        stack.pop()
+        v = z3var(names[var[n]])
+        zl = cache[l] if l >= 2 else None
+        zh = cache[h] if h >= 2 else None
+        if l == 0 and h == 1:
+            cache[n] = v
+        elif l == 1 and h == 0:
+            cache[n] = z3.Not(v)
+        elif h == 1:
+            cache[n] = z3.Or(v, zl)
+        elif h == 0:
+            cache[n] = z3.And(z3.Not(v), zl)
+        elif l == 0:
+            cache[n] = z3.And(v, zh)
+        elif l == 1:
+            cache[n] = z3.Or(z3.Not(v), zh)
+        else:
+            cache[n] = z3.If(v, zh, zl)
+    return cache[b.i]
 
 
-def Xor_(a, b):
-    return Not_(Eq_(a, b))
+def eval_b(b, asg):
+    """evaluate under an assignment {variable name: bool} (missing variables = False)"""
+    if isinstance(b, bool):
+        return b
+    n = b.i
+    var, lo, hi, names = M_.var, M_.lo, M_.hi, M_.names
+    while n >= 2:
+        n = hi[n] if asg.get(names[var[n]], False) else lo[n]
+    return n == 1
 
 
-class Fresh:
-    """fresh variable factory with readable names"""
+def model_assignment(model):
+    """z3 model -> {name: bool} for every BDD variable"""
+    asg = {}
+    for name in M_.names:
+        v = model.eval(z3var(name), model_completion=True)
+        asg[name] = z3.is_true(v)
+    return asg
 
-    def __init__(self):
-        self.n = 0
-        self.names = {}
 
-    def bool(self, name):
-        k = self.names.get(name, 0)
-        self.names[name] = k + 1
-        nm = name if k == 0 else "%s#%d" % (name, k)
-        return z3.Bool(nm)
+def bdd_size(b):
+    if isinstance(b, bool):
+        return 0
+    seen = set()
+    st = [b.i]
+    while st:
+        n = st.pop()
+        if n < 2 or n in seen:
+            continue
+        seen.add(n)
+        st.append(M_.lo[n])
+        st.append(M_.hi[n])
+    return len(seen)
+
+
+def manager_stats():
+    return {"bdd_nodes": len(M_.var), "bdd_vars": len(M_.names)}
+
+
+def new_solver():
+    return z3.Solver()
 
 
 def merge_alts(alts):
-    """[(cond, value)] -> merged by equal (hashable) value, dropping literally-false conds"""
+    """[(cond, value)] -> merged by equal (hashable) value, dropping false conds"""
     out = {}
     order = []
     for c, v in alts:
-        if isinstance(c, bool) and not c:
+        if c is False:
             continue
         try:
             key = ("h", v)
@@ -213,22 +419,3 @@ def merge_alts(alts):
             out[key] = (c, v)
             order.append(key)
     return [out[k] for k in order]
-
-
-class Namer:
-    """introduces a fresh Boolean for a state bit and asserts its definition permanently in the solver
-    (iteration-boundary let-binding): later formulas stay shallow and every check only internalises what
-    is new, instead of re-encoding the whole unrolled history under each push/pop."""
-
-    def __init__(self, solver, prefix="d"):
-        self.solver, self.prefix, self.n = solver, prefix, 0
-
-    def name(self, b):
-        if isinstance(b, bool):
-            return b
-        if z3.is_const(b) or (z3.is_not(b) and z3.is_const(b.arg(0))):
-            return b
-        self.n += 1
-        v = z3.Bool("%s%d" % (self.prefix, self.n))
-        self.solver.add(v == b)
-        return v
